@@ -1434,6 +1434,7 @@ func TestVerifC14E2(t *testing.T) {
 		if err := enc.Encode(rec); err != nil {
 			t.Fatal(err)
 		}
+		bw.Flush() // a later crash of the server code must not lose the completed runs
 		done++
 		if hang {
 			hangs++ // the stuck goroutines stay parked for good (their world is gone); they are not reported again
